@@ -720,10 +720,27 @@ struct SoakReplay {
 }
 
 fn soak_call(k: u64) -> (String, vsim::coresim::Call) {
-    const DOCS: &[&str] = &["#let x = 1\n", "#f(1,2)\n", "= T\n", "#import \"m.typ\": b, a\n", "$x$\n", "#table(columns: 2, [a], [b])\n", "#let y=(1,\n2)\n", "text\n"];
-    let text = DOCS[(k % DOCS.len() as u64) as usize].to_string();
-    let cfg = vsim::oracle::Cfg { column: [80usize, 20, 120][(k / 8 % 3) as usize], tab: 2, reorder: k % 5 == 0 };
-    let op = match k % 10 {
+    // Documents are drawn pseudo-randomly (a function of k only). Twin families share their tree
+    // shape - hence their span numbers - and differ in attributes; the "writer" twin (with
+    // `@typstyle off`, multi-line flavour) is rare, the "reader" twins are frequent, so that for
+    // any recycling period P there are many pairs (k, k+P) of writer and reader with no other
+    // writer in between.
+    const ORDINARY: &[&str] = &["#let x = 1\n", "#f(1,2)\n", "= T\n", "#import \"m.typ\": b, a\n", "$x$\n", "#table(columns: 2, [a], [b])\n", "#let y=(1,\n2)\n", "text\n", "#a.b.c(1)\n"];
+    const WRITERS: &[&str] = &["// @typstyle off\n#let   a=(1,2 ,3)\n", "#f(\n  1, /* @typstyle off */ (2,3))\n"];
+    const READERS: &[&str] = &["// typstyle note\n#let   a=(1,2 ,3)\n", "#f(1, /* typstyle note */ (2,3))\n"];
+    let mut st = k ^ 0x50A4;
+    let r = vsim::rng::splitmix(&mut st);
+    let pick = r % 1000;
+    let text = if pick < 7 {
+        WRITERS[(r >> 20) as usize % WRITERS.len()]
+    } else if pick < 100 {
+        READERS[(r >> 20) as usize % READERS.len()]
+    } else {
+        ORDINARY[(r >> 20) as usize % ORDINARY.len()]
+    }
+    .to_string();
+    let cfg = vsim::oracle::Cfg { column: [80usize, 20, 120][(r >> 32) as usize % 3], tab: 2, reorder: (r >> 40) % 5 == 0 };
+    let op = match (r >> 48) % 10 {
         0..=5 => Op::Content,
         6..=8 => Op::Source,
         _ => Op::Width,
@@ -962,7 +979,7 @@ fn cmd_run(args: &[String]) -> i32 {
                     println!("  invariant V17.7-soak: {}", msg);
                     reported.push(json!({"invariant": "V17.7-soak", "message": msg, "replay": path}));
                 }
-                soak_json = json!({"run": true, "calls_in_one_process": r.calls, "failure": r.failure, "note": "single thread, tiny documents, 8 texts x 3 widths x 3 entry points; every result compared with the first result for the same arguments"});
+                soak_json = json!({"run": true, "calls_in_one_process": r.calls, "failure": r.failure, "note": "single thread, tiny documents drawn pseudo-randomly (ordinary ones, rare attribute-writing twins, frequent attribute-free twins of the same tree shape) x 3 widths x 3 entry points; every result compared with the first result for the same arguments"});
             }
             None => eprintln!("WARNING: the soak lane produced no result"),
         }
